@@ -233,6 +233,30 @@ class NpShim(object):
     def square(x):
         return x * x
 
+    def isclose(self, a, b, rtol=1e-05, atol=1e-08, equal_nan=False):
+        """numpy.isclose on scalars over the reals: |a-b| <= atol + rtol*|b| as ONE z3 formula"""
+        if REPLAY is not None or not (is_sym(a) or is_sym(b)):
+            return self._np.isclose(a, b, rtol=rtol, atol=atol, equal_nan=equal_nan)
+        with NoTracing():
+            from crosshair.libimpl.builtinslib import SymbolicBool
+            za, zb = zv(a), zv(b)
+            d = za - zb
+            ad = z3.If(d >= 0, d, -d)
+            mb = z3.If(zb >= 0, zb, -zb)
+            return SymbolicBool(ad <= z3.RealVal(repr(atol)) + z3.RealVal(repr(rtol)) * mb)
+
+    def allclose(self, a, b, rtol=1e-05, atol=1e-08, equal_nan=False):
+        if REPLAY is not None or not (is_sym(a) or is_sym(b)):
+            return self._np.allclose(a, b, rtol=rtol, atol=atol, equal_nan=equal_nan)
+        return self.isclose(a, b, rtol=rtol, atol=atol)
+
+    def abs(self, x):
+        if hasattr(x, '__iter__'):
+            return self._np.abs(x)
+        return -x if x < 0 else x
+
+    absolute = fabs = abs
+
 
 def isclose_stub(a, b, rel_tol=1e-9, abs_tol=0.0):
     """math.isclose over the reals as ONE z3 formula (a single branch when the result is used)."""
